@@ -43,6 +43,23 @@ THEOREMS = [
     "Ural.Props.C13.lru_prefix_of_under_psl_string",
     "Ural.Props.C13.kf_inside_suffix_psl",
     "Ural.Props.C08.walk_eq_psl",
+    # the clause "the serialized LRU of u is a string prefix of that of v" for what lru_stems / url_to_lru RETURN
+    # (empty path stems kept): true for UnderRaw, false for Under (witness)
+    "Ural.Lru.keyStemsG_prefix_iff",
+    "Ural.Props.C13.keyG_prefix_of_under",
+    "Ural.Props.C13.under_of_underRaw",
+    "Ural.Props.C13.stems_prefix_of_under_raw",
+    "Ural.Props.C13.lru_prefix_of_under_raw",
+    "Ural.Props.C13.url_to_lru_prefix_of_under_string",
+    "Ural.Props.C13.raw_lru_not_prefix_witness",
+    "Ural.Props.C13.keyG_prefix_of_under_sub",
+    "Ural.Props.C13.stems_prefix_of_under_raw_psl",
+    "Ural.Props.C13.lru_prefix_of_under_raw_psl",
+    "Ural.Props.C13.url_to_lru_prefix_of_under_psl_string",
+    # no hypothesis about split_suffix left in the serialisation clauses (equal hosts of any kind included)
+    "Ural.Props.C13.split_nobar_psl",
+    "Ural.Props.C13.stems_ok_psl",
+    "Ural.Props.C13.url_to_lru_prefix_iff_psl",
 ]
 EXTRA_IMPORTS = ["UralModel.Props.C13Psl"]
 TABLE_OBLIGATIONS = [
@@ -162,6 +179,10 @@ CORPUS = [
     {"u": "http://lemonde.fr", "vs": ["http://lemonde.fr.evil.com", "http://www.lemonde.fr/a", "http://lemonde.fra", "http://xlemonde.fr"], "sa": False},
     {"u": "http://lemonde.fr", "vs": ["http://lemonde.fr.evil.com", "http://www.lemonde.fr/a", "http://lemonde.fra", "http://xlemonde.fr"], "sa": True},
     {"u": "http://a.com/a", "vs": ["http://a.com/ab", "http://a.com/a/b", "http://a.com/a//b", "http://a.com/a/", "http://a.com//a"], "sa": False},
+    # the string-prefix clause on what url_to_lru returns: trailing slash / empty segments (raw_lru_not_prefix_witness)
+    {"u": "http://a.com/", "vs": ["http://a.com/x", "http://a.com//x", "http://a.com/", "http://a.com/?q=1", "http://www.a.com/"], "sa": False},
+    {"u": "http://a.com/a/", "vs": ["http://a.com/a/b", "http://a.com/a//b", "http://a.com/a/?q#f", "http://a.com/a"], "sa": True},
+    {"u": "http://a.co.uk", "vs": ["http://www.a.co.uk//x", "http://a.co.uk/", "http://a.co.uk//"], "sa": True},
     # IP pseudo-ancestors, localhost, bracketed
     {"u": "http://3.4", "vs": ["http://1.2.3.4", "http://2.3.4", "http://3.4/x"], "sa": False},
     {"u": "http://1.2.3.4", "vs": ["http://a.1.2.3.4", "http://1.2.3.4/x", "http://1.2.3.4:80"], "sa": False},
@@ -424,6 +445,30 @@ def under_by(f, A, Bv):
     return True
 
 
+def raw_segs(path):
+    return path.split("/")[1:]
+
+
+def under_raw(A, Bv):
+    """v lies under u with the path segments read as they are, empty ones included (Lean: UnderRaw): the hierarchy for
+    which the RAW lru_stems(u) / url_to_lru(u) is demanded to be a prefix"""
+    hu, pu = spec_host_port(A[1])
+    hv, pv = spec_host_port(Bv[1])
+    su, sv = raw_segs(A[2]), raw_segs(Bv[2])
+    qu, fu = A[3], A[4]
+    if A[0] != Bv[0] or pu != pv:
+        return False
+    if not (hu == hv or (su == [] and qu == "" and fu == "" and strict_sub(hu, hv))):
+        return False
+    if not (su == sv or (qu == "" and fu == "" and sv[: len(su)] == su)):
+        return False
+    if not (qu == Bv[3] or (qu == "" and fu == "")):
+        return False
+    if not (fu == Bv[4] or fu == ""):
+        return False
+    return True
+
+
 def ident(x):
     return x
 
@@ -482,7 +527,7 @@ def canon(op, out):
     if op.get("f") == "lru_pairs_psl" and isinstance(out, dict) and "rows" in out:
         # `outside` is compared on DNS names only (the theorem uses it there; elsewhere the two notions of
         # "special host" — is_special_host on .hostname vs the oracle's narrow one — need not agree)
-        return {"u_split": out.get("u_split"), "rows": [r[:8] + [bool(r[8]) and bool(r[9])] + r[9:] for r in out["rows"]]}
+        return {"u_split": out.get("u_split"), "rows": [r[:9] + [bool(r[9]) and bool(r[10])] + r[10:] for r in out["rows"]]}
     return B.canon(op, out)
 
 
@@ -536,6 +581,7 @@ def impl(case):
             lv.startswith(lu),
             lcv.startswith(lcu),
             label_host(hu) and label_host(hv),
+            under_raw(A, V),
         ]
         if psl:
             # hypotheses of stems_prefix_of_under_psl, read independently from the regenerated list, and
@@ -658,6 +704,12 @@ def pair_verdict(case, v):
                 return "forward: %s lies under %s but stems %r are not a prefix of %r %s" % (v, case["u"], cu, cv, KF_MARK)
         elif not pre:
             return "forward: %s lies under %s but stems %r are not a prefix of %r" % (v, case["u"], cu, cv)
+        # the clause "the serialized LRU of u is a string prefix of that of v" on what url_to_lru RETURNS (empty path
+        # stems kept): demanded when v's path segments, read as they are, extend u's (under_raw; the reading that
+        # demands less — with 'empty path stems aside' carried over to this clause it is false for the real function:
+        # http://a.com/ -> '...|p:|' vs http://a.com/x -> '...|p:x|', Lean raw_lru_not_prefix_witness)
+        elif under_raw(A, V) and not (is_prefix(su, sv) and lv.startswith(lu)):
+            return "forward (raw): %s lies under %s (segments as they are) but url_to_lru %r is not a string prefix of %r" % (v, case["u"], lu, lv)
     # converse
     if pre and not under_by(B.ascii_lower if sa else ident, A, V):
         return "converse: stems %r are a prefix of %r but %s does not lie under %s" % (cu, cv, v, case["u"])
